@@ -18,24 +18,24 @@ Local Open Scope Z_scope.
    areItemsNothrowRelocatable (where pvFind only looks at the newest table) the chain never has more than one table. *)
 Theorem C11_relocate_interrupted_inv :
   forall (B : Type) (b0 : B) (decode : Z -> B -> Z) (upd_bound : B -> Z -> B) (h : Z -> Z) (cap : Z) 
-           (wf0 : bool) (start : Z -> Z -> Z) (next : Z -> Z -> Z -> Z) (logStart : Z) (calcCapacity shift : Z -> Z)
-           (nothrowReloc : bool),
-         kind_ok B decode upd_bound cap start next logStart shift ->
+           (wf0 : bool) (wfull : Z -> bool) (start : Z -> Z -> Z) (next : Z -> Z -> Z -> Z) (logStart : Z)
+           (calcCapacity shift : Z -> Z) (nothrowReloc : bool),
+         kind_ok B decode upd_bound cap wfull start next logStart shift ->
          forall (os : list op) (s : hset B) (outs : list out),
-         run B b0 decode upd_bound h cap wf0 start next logStart calcCapacity shift nothrowReloc (hinit B) os = Some (s, outs) ->
-         Inv B b0 decode h cap wf0 start next nothrowReloc s.
+         run B b0 decode upd_bound h cap wf0 wfull start next logStart calcCapacity shift nothrowReloc (hinit B) os =
+         Some (s, outs) -> Inv B b0 decode h cap wf0 start next nothrowReloc s.
 Proof. exact relocate_interrupted_inv. Qed.
 Print Assumptions C11_relocate_interrupted_inv.
 
 (* the same as a one-step statement: Inv is preserved by every operation under every failure choice (unless the model says std::terminate). *)
 Theorem C11_inv_step :
   forall (B : Type) (b0 : B) (decode : Z -> B -> Z) (upd_bound : B -> Z -> B) (h : Z -> Z) (cap : Z) 
-           (wf0 : bool) (start : Z -> Z -> Z) (next : Z -> Z -> Z -> Z) (logStart : Z) (calcCapacity shift : Z -> Z)
-           (nothrowReloc : bool),
-         kind_ok B decode upd_bound cap start next logStart shift ->
+           (wf0 : bool) (wfull : Z -> bool) (start : Z -> Z -> Z) (next : Z -> Z -> Z -> Z) (logStart : Z)
+           (calcCapacity shift : Z -> Z) (nothrowReloc : bool),
+         kind_ok B decode upd_bound cap wfull start next logStart shift ->
          forall (s : hset B) (o : op) (s' : hset B) (r : out),
          Inv B b0 decode h cap wf0 start next nothrowReloc s ->
-         step B b0 decode upd_bound h cap wf0 start next logStart calcCapacity shift nothrowReloc s o = Some (s', r) ->
+         step B b0 decode upd_bound h cap wf0 wfull start next logStart calcCapacity shift nothrowReloc s o = Some (s', r) ->
          Inv B b0 decode h cap wf0 start next nothrowReloc s'.
 Proof. exact inv_step. Qed.
 Print Assumptions C11_inv_step.
@@ -57,15 +57,39 @@ Theorem C11_traversal_once :
 Proof. exact traversal_once. Qed.
 Print Assumptions C11_traversal_once.
 
+(* traversal_once for the ITERATOR STATE MACHINE (pvInc / pvMove, HashSet.h:349-383: bucket index, position inside the bucket, switch to mNextBuckets): started at GetBegin() in any state satisfying Inv -- any number of coexisting generations -- it needs exactly mCount increments, visits a duplicate-free permutation of the contents and then equals the end iterator (termination). *)
+Theorem C11_iterator_traversal_once :
+  forall (B : Type) (b0 : B) (decode : Z -> B -> Z) (h : Z -> Z) (cap : Z) (wf0 : bool) (start : Z -> Z -> Z)
+           (next : Z -> Z -> Z -> Z),
+         (Z -> Z) ->
+         forall (nothrowReloc : bool) (s : hset B),
+         Inv B b0 decode h cap wf0 start next nothrowReloc s ->
+         exists l : list Z,
+           walk B b0 wf0 (Z.to_nat (count B s)) (it_begin B b0 wf0 s) = (l, IEnd B) /\ Permutation l (abs B s) /\ NoDup l.
+Proof. exact iterator_traversal_once. Qed.
+Print Assumptions C11_iterator_traversal_once.
+
+(* pvFindBuckets as coded (HashSet.h:1220-1237: single-table shortcut, else walk the generations newest first, skip those with bucketIndex >= bucket count, test whether the bucket iterator lies in the address range of that bucket) returns the generation in which pvFind found the item -- so pvRemove (which the model routes through it) acts on the right table in every multi-generation state.  Memory-model assumption: item storage of different buckets/generations is disjoint. *)
+Theorem C11_find_buckets_returns_owner :
+  forall (B : Type) (b0 : B) (decode : Z -> B -> Z) (h : Z -> Z) (cap : Z) (wf0 : bool) (start : Z -> Z -> Z)
+           (next : Z -> Z -> Z -> Z),
+         (Z -> Z) ->
+         forall (nothrowReloc : bool) (s : hset B) (k : Z) (gi : nat) (idx : Z) (pos : nat),
+         Inv B b0 decode h cap wf0 start next nothrowReloc s ->
+         hfind B b0 decode h wf0 start next nothrowReloc s k = Some (gi, idx, pos) ->
+         find_buckets B b0 wf0 (gens B s) idx gi pos = Some gi.
+Proof. exact find_buckets_returns_owner. Qed.
+Print Assumptions C11_find_buckets_returns_owner.
+
 (* removable.  In every state satisfying Inv (e.g. an interrupted migration with 3 generations) Remove(key) of a present key succeeds, removes exactly that key, keeps Inv and the chain; afterwards the key is not found. *)
 Theorem C11_removable :
   forall (B : Type) (b0 : B) (decode : Z -> B -> Z) (upd_bound : B -> Z -> B) (h : Z -> Z) (cap : Z) 
-           (wf0 : bool) (start : Z -> Z -> Z) (next : Z -> Z -> Z -> Z) (logStart : Z) (calcCapacity shift : Z -> Z)
-           (nothrowReloc : bool) (s : hset B) (k : Z),
+           (wf0 : bool) (wfull : Z -> bool) (start : Z -> Z -> Z) (next : Z -> Z -> Z -> Z) (logStart : Z)
+           (calcCapacity shift : Z -> Z) (nothrowReloc : bool) (s : hset B) (k : Z),
          Inv B b0 decode h cap wf0 start next nothrowReloc s ->
          In k (abs B s) ->
          exists s' : hset B,
-           step B b0 decode upd_bound h cap wf0 start next logStart calcCapacity shift nothrowReloc s (ORemove k) =
+           step B b0 decode upd_bound h cap wf0 wfull start next logStart calcCapacity shift nothrowReloc s (ORemove k) =
            Some (s', RRemoved true) /\
            Inv B b0 decode h cap wf0 start next nothrowReloc s' /\
            Permutation (abs B s) (k :: abs B s') /\
@@ -80,24 +104,24 @@ Print Assumptions C11_removable.
    inserted-and-not-removed key is found, in every intermediate state. *)
 Theorem C11_history_refines_set :
   forall (B : Type) (b0 : B) (decode : Z -> B -> Z) (upd_bound : B -> Z -> B) (h : Z -> Z) (cap : Z) 
-           (wf0 : bool) (start : Z -> Z -> Z) (next : Z -> Z -> Z -> Z) (logStart : Z) (calcCapacity shift : Z -> Z)
-           (nothrowReloc : bool),
-         kind_ok B decode upd_bound cap start next logStart shift ->
+           (wf0 : bool) (wfull : Z -> bool) (start : Z -> Z -> Z) (next : Z -> Z -> Z -> Z) (logStart : Z)
+           (calcCapacity shift : Z -> Z) (nothrowReloc : bool),
+         kind_ok B decode upd_bound cap wfull start next logStart shift ->
          forall (os : list op) (s : hset B) (outs : list out),
-         run B b0 decode upd_bound h cap wf0 start next logStart calcCapacity shift nothrowReloc (hinit B) os = Some (s, outs) ->
-         refines [] os outs (abs B s).
+         run B b0 decode upd_bound h cap wf0 wfull start next logStart calcCapacity shift nothrowReloc (hinit B) os =
+         Some (s, outs) -> refines [] os outs (abs B s).
 Proof. exact history_refines_set. Qed.
 Print Assumptions C11_history_refines_set.
 
 (* strong guarantee in the model: an Insert that throws (table full / bad_alloc / hash exception / MOMO_CHECK), a failed Reserve, an Insert of a present key and a Remove of an absent key leave the whole state unchanged. *)
 Theorem C11_failed_op_changes_nothing :
   forall (B : Type) (b0 : B) (decode : Z -> B -> Z) (upd_bound : B -> Z -> B) (h : Z -> Z) (cap : Z) 
-           (wf0 : bool) (start : Z -> Z -> Z) (next : Z -> Z -> Z -> Z) (logStart : Z) (calcCapacity shift : Z -> Z)
-           (nothrowReloc : bool),
-         kind_ok B decode upd_bound cap start next logStart shift ->
+           (wf0 : bool) (wfull : Z -> bool) (start : Z -> Z -> Z) (next : Z -> Z -> Z -> Z) (logStart : Z)
+           (calcCapacity shift : Z -> Z) (nothrowReloc : bool),
+         kind_ok B decode upd_bound cap wfull start next logStart shift ->
          forall (s : hset B) (o : op) (s' : hset B) (r : out),
          Inv B b0 decode h cap wf0 start next nothrowReloc s ->
-         step B b0 decode upd_bound h cap wf0 start next logStart calcCapacity shift nothrowReloc s o = Some (s', r) ->
+         step B b0 decode upd_bound h cap wf0 wfull start next logStart calcCapacity shift nothrowReloc s o = Some (s', r) ->
          r = RFull \/ r = RBadAlloc \/ r = RExn \/ r = RCheck \/ r = RAlready \/ r = RRemoved false -> s' = s.
 Proof. exact failed_op_changes_nothing. Qed.
 Print Assumptions C11_failed_op_changes_nothing.
@@ -109,9 +133,9 @@ Print Assumptions C11_failed_op_changes_nothing.
    every one of them is full. *)
 Theorem C11_grow_refused_insert_succeeds_unless_path_full :
   forall (B : Type) (b0 : B) (decode : Z -> B -> Z) (upd_bound : B -> Z -> B) (h : Z -> Z) (cap : Z) 
-           (wf0 : bool) (start : Z -> Z -> Z) (next : Z -> Z -> Z -> Z) (logStart : Z) (calcCapacity shift : Z -> Z)
-           (nothrowReloc : bool),
-         kind_ok B decode upd_bound cap start next logStart shift ->
+           (wf0 : bool) (wfull : Z -> bool) (start : Z -> Z -> Z) (next : Z -> Z -> Z -> Z) (logStart : Z)
+           (calcCapacity shift : Z -> Z) (nothrowReloc : bool),
+         kind_ok B decode upd_bound cap wfull start next logStart shift ->
          kind_ok3 calcCapacity ->
          forall (s : hset B) (t : table B) (r : list (table B)) (k : Z) (sch : list bool),
          Inv B b0 decode h cap wf0 start next nothrowReloc s ->
@@ -120,12 +144,12 @@ Theorem C11_grow_refused_insert_succeeds_unless_path_full :
          (count B s <? capacity B s) = false ->
          ((exists d : nat, Z.of_nat d < bcount B t /\ isFull B cap (getb B b0 wf0 t (path start next (bcount B t) (h k) d)) = false) ->
           exists s' : hset B,
-            step B b0 decode upd_bound h cap wf0 start next logStart calcCapacity shift nothrowReloc s
+            step B b0 decode upd_bound h cap wf0 wfull start next logStart calcCapacity shift nothrowReloc s
               (OInsert k false false true sch) = Some (s', RInserted) /\
             Inv B b0 decode h cap wf0 start next nothrowReloc s' /\
             Permutation (abs B s') (k :: abs B s) /\ capacity B s' = capacity B s /\ (length (gens B s') <= length (gens B s))%nat) /\
          ((forall d : nat, Z.of_nat d < bcount B t -> isFull B cap (getb B b0 wf0 t (path start next (bcount B t) (h k) d)) = true) ->
-          step B b0 decode upd_bound h cap wf0 start next logStart calcCapacity shift nothrowReloc s
+          step B b0 decode upd_bound h cap wf0 wfull start next logStart calcCapacity shift nothrowReloc s
             (OInsert k false false true sch) = Some (s, RFull)).
 Proof. exact grow_refused_insert_succeeds_unless_path_full. Qed.
 Print Assumptions C11_grow_refused_insert_succeeds_unless_path_full.
@@ -137,9 +161,9 @@ Print Assumptions C11_grow_refused_insert_succeeds_unless_path_full.
    CalcCapacity never exceeds the physical size) and kind_ok3 (capacities grow with the table size). *)
 Theorem C11_later_ops_complete_migration :
   forall (B : Type) (b0 : B) (decode : Z -> B -> Z) (upd_bound : B -> Z -> B) (h : Z -> Z) (cap : Z) 
-           (wf0 : bool) (start : Z -> Z -> Z) (next : Z -> Z -> Z -> Z) (logStart : Z) (calcCapacity shift : Z -> Z)
-           (nothrowReloc : bool),
-         kind_ok B decode upd_bound cap start next logStart shift ->
+           (wf0 : bool) (wfull : Z -> bool) (start : Z -> Z -> Z) (next : Z -> Z -> Z -> Z) (logStart : Z)
+           (calcCapacity shift : Z -> Z) (nothrowReloc : bool),
+         kind_ok B decode upd_bound cap wfull start next logStart shift ->
          kind_ok2 cap start next calcCapacity ->
          kind_ok3 calcCapacity ->
          forall (ks : list Z) (s : hset B),
@@ -148,7 +172,7 @@ Theorem C11_later_ops_complete_migration :
          NoDup ks ->
          (forall k : Z, In k ks -> ~ In k (abs B s)) ->
          exists (s' : hset B) (outs : list out),
-           run B b0 decode upd_bound h cap wf0 start next logStart calcCapacity shift nothrowReloc s (map fresh_insert ks) =
+           run B b0 decode upd_bound h cap wf0 wfull start next logStart calcCapacity shift nothrowReloc s (map fresh_insert ks) =
            Some (s', outs) /\
            Forall (fun o : out => o = RInserted) outs /\
            Inv B b0 decode h cap wf0 start next nothrowReloc s' /\
@@ -157,30 +181,64 @@ Theorem C11_later_ops_complete_migration :
 Proof. exact later_ops_complete_migration_thm. Qed.
 Print Assumptions C11_later_ops_complete_migration.
 
+(* Reserve(n) with a granted allocation and no failure, n > mCapacity and n >= mCount, issued in ANY state satisfying Inv (e.g. several generations left by interrupted migrations): all items are migrated into the new table, exactly ONE generation remains, contents unchanged, capacity >= n.  (Refused / interrupted Reserve: C11_inv_step, C11_history_refines_set, C11_failed_op_changes_nothing.) *)
+Theorem C11_reserve_completes_migration :
+  forall (B : Type) (b0 : B) (decode : Z -> B -> Z) (upd_bound : B -> Z -> B) (h : Z -> Z) (cap : Z) 
+           (wf0 : bool) (wfull : Z -> bool) (start : Z -> Z -> Z) (next : Z -> Z -> Z -> Z) (logStart : Z)
+           (calcCapacity shift : Z -> Z) (nothrowReloc : bool),
+         kind_ok B decode upd_bound cap wfull start next logStart shift ->
+         kind_ok2 cap start next calcCapacity ->
+         forall (s : hset B) (n nl : Z),
+         Inv B b0 decode h cap wf0 start next nothrowReloc s ->
+         (n <=? capacity B s) = false ->
+         count B s <= n ->
+         reserve_log calcCapacity 64 (newLog B logStart shift (gens B s)) n = Some nl ->
+         exists s' : hset B,
+           step B b0 decode upd_bound h cap wf0 wfull start next logStart calcCapacity shift nothrowReloc s (OReserve n false []) =
+           Some (s', RUnit) /\
+           length (gens B s') = 1%nat /\
+           Inv B b0 decode h cap wf0 start next nothrowReloc s' /\ Permutation (abs B s') (abs B s) /\ n <= capacity B s'.
+Proof. exact reserve_completes_migration_thm. Qed.
+Print Assumptions C11_reserve_completes_migration.
+
+(* Clear(shrink) in any state satisfying Inv (e.g. an interrupted migration): the result satisfies Inv, is empty, and has at most one table (older generations are released). *)
+Theorem C11_clear_any_state :
+  forall (B : Type) (b0 : B) (decode : Z -> B -> Z) (h : Z -> Z) (cap : Z) (wf0 : bool) (start : Z -> Z -> Z)
+           (next : Z -> Z -> Z -> Z),
+         (Z -> Z) ->
+         forall (nothrowReloc : bool) (s : hset B) (shrink : bool),
+         0 < cap ->
+         Inv B b0 decode h cap wf0 start next nothrowReloc s ->
+         Inv B b0 decode h cap wf0 start next nothrowReloc (hclear B b0 wf0 s shrink) /\
+         abs B (hclear B b0 wf0 s shrink) = [] /\ (length (gens B (hclear B b0 wf0 s shrink)) <= 1)%nat.
+Proof. exact clear_any_state. Qed.
+Print Assumptions C11_clear_any_state.
+
 (* the premise CapOk of the previous theorem (mCapacity <= physical size of the newest table) holds in every state reachable from the empty container that has a table, for every history and failure schedule. *)
 Theorem C11_reachable_cap_ok :
   forall (B : Type) (b0 : B) (decode : Z -> B -> Z) (upd_bound : B -> Z -> B) (h : Z -> Z) (cap : Z) 
-           (wf0 : bool) (start : Z -> Z -> Z) (next : Z -> Z -> Z -> Z) (logStart : Z) (calcCapacity shift : Z -> Z)
-           (nothrowReloc : bool),
-         kind_ok B decode upd_bound cap start next logStart shift ->
+           (wf0 : bool) (wfull : Z -> bool) (start : Z -> Z -> Z) (next : Z -> Z -> Z -> Z) (logStart : Z)
+           (calcCapacity shift : Z -> Z) (nothrowReloc : bool),
+         kind_ok B decode upd_bound cap wfull start next logStart shift ->
          kind_ok2 cap start next calcCapacity ->
          forall (os : list op) (s : hset B) (outs : list out),
-         run B b0 decode upd_bound h cap wf0 start next logStart calcCapacity shift nothrowReloc (hinit B) os = Some (s, outs) ->
-         gens B s <> [] -> CapOk B cap s.
+         run B b0 decode upd_bound h cap wf0 wfull start next logStart calcCapacity shift nothrowReloc (hinit B) os =
+         Some (s, outs) -> gens B s <> [] -> CapOk B cap s.
 Proof. exact reachable_cap_ok. Qed.
 Print Assumptions C11_reachable_cap_ok.
 
 (* since the fix of pvAddGrow (size loop instead of MOMO_CHECK(newCapacity > mCount)): in every reachable state, whatever failed before, no insertion ends in a capacity-check failure (model result RCheck), i.e. an overloaded table can always try to grow again. *)
 Theorem C11_insert_never_fails_check :
   forall (B : Type) (b0 : B) (decode : Z -> B -> Z) (upd_bound : B -> Z -> B) (h : Z -> Z) (cap : Z) 
-           (wf0 : bool) (start : Z -> Z -> Z) (next : Z -> Z -> Z -> Z) (logStart : Z) (calcCapacity shift : Z -> Z)
-           (nothrowReloc : bool),
-         kind_ok B decode upd_bound cap start next logStart shift ->
+           (wf0 : bool) (wfull : Z -> bool) (start : Z -> Z -> Z) (next : Z -> Z -> Z -> Z) (logStart : Z)
+           (calcCapacity shift : Z -> Z) (nothrowReloc : bool),
+         kind_ok B decode upd_bound cap wfull start next logStart shift ->
          kind_ok2 cap start next calcCapacity ->
          kind_ok3 calcCapacity ->
          forall (os : list op) (s : hset B) (outs : list out) (k : Z) (hf af rf : bool) (sch : list bool) (s' : hset B) (r : out),
-         run B b0 decode upd_bound h cap wf0 start next logStart calcCapacity shift nothrowReloc (hinit B) os = Some (s, outs) ->
-         step B b0 decode upd_bound h cap wf0 start next logStart calcCapacity shift nothrowReloc s (OInsert k hf af rf sch) =
+         run B b0 decode upd_bound h cap wf0 wfull start next logStart calcCapacity shift nothrowReloc (hinit B) os =
+         Some (s, outs) ->
+         step B b0 decode upd_bound h cap wf0 wfull start next logStart calcCapacity shift nothrowReloc s (OInsert k hf af rf sch) =
          Some (s', r) -> r <> RCheck.
 Proof. exact insert_never_fails_check. Qed.
 Print Assumptions C11_insert_never_fails_check.
@@ -189,7 +247,8 @@ Print Assumptions C11_insert_never_fails_check.
 Theorem C11_concrete_kind_ok :
   forall c : config,
          0 < c_cap c ->
-         0 <= c_logStart c -> kind_ok Z (fun _ b : Z => b) Z.max (c_cap c) start_mask (cfg_next c) (c_logStart c) (cfg_sh c).
+         0 <= c_logStart c ->
+         kind_ok Z (fun _ b : Z => b) Z.max (c_cap c) (cfg_wfull c) start_mask (cfg_next c) (c_logStart c) (cfg_sh c).
 Proof. exact concrete_kind_ok. Qed.
 Print Assumptions C11_concrete_kind_ok.
 
